@@ -138,15 +138,22 @@ def afb1d(x, h0, h1, mode='zero', dim=-1):
             else:
                 x = torch.cat((x, x[:,:,:,-1:]), dim=3)
             N += 1
+        N2 = N//2
+        # A filter longer than the signal wraps around it more than once.
+        # Repeat the signal so that a single wrap is enough; the first N2
+        # outputs are then the wanted ones.
+        if L > N:
+            x = torch.cat([x] * -(-L // N), dim=d)
+            N = x.shape[d]
         x = roll(x, -L2, dim=d)
         pad = (L-1, 0) if d == 2 else (0, L-1)
         lohi = F.conv2d(x, h, padding=pad, stride=s, groups=C)
-        N2 = N//2
+        Nh = N//2
         if d == 2:
-            lohi[:,:,:L2] = lohi[:,:,:L2] + lohi[:,:,N2:N2+L2]
+            lohi[:,:,:L2] = lohi[:,:,:L2] + lohi[:,:,Nh:Nh+L2]
             lohi = lohi[:,:,:N2]
         else:
-            lohi[:,:,:,:L2] = lohi[:,:,:,:L2] + lohi[:,:,:,N2:N2+L2]
+            lohi[:,:,:,:L2] = lohi[:,:,:,:L2] + lohi[:,:,:,Nh:Nh+L2]
             lohi = lohi[:,:,:,:N2]
     else:
         # Calculate the pad size
@@ -254,15 +261,25 @@ def sfb1d(lo, hi, g0, g1, mode='zero', dim=-1):
     g0 = torch.cat([g0]*C,dim=0)
     g1 = torch.cat([g1]*C,dim=0)
     if mode == 'per' or mode == 'periodization':
+        # A filter longer than the signal wraps around it more than once.
+        # Repeat the coefficients so that a single wrap is enough; the first
+        # N outputs are then the wanted ones.
+        Nt = N
+        if L > N:
+            lo = torch.cat([lo] * -(-L // N), dim=d)
+            hi = torch.cat([hi] * -(-L // N), dim=d)
+            Nt = 2*lo.shape[d]
         y = F.conv_transpose2d(lo, g0, stride=s, groups=C) + \
             F.conv_transpose2d(hi, g1, stride=s, groups=C)
         if d == 2:
-            y[:,:,:L-2] = y[:,:,:L-2] + y[:,:,N:N+L-2]
-            y = y[:,:,:N]
+            y[:,:,:L-2] = y[:,:,:L-2] + y[:,:,Nt:Nt+L-2]
+            y = y[:,:,:Nt]
         else:
-            y[:,:,:,:L-2] = y[:,:,:,:L-2] + y[:,:,:,N:N+L-2]
-            y = y[:,:,:,:N]
+            y[:,:,:,:L-2] = y[:,:,:,:L-2] + y[:,:,:,Nt:Nt+L-2]
+            y = y[:,:,:,:Nt]
         y = roll(y, 1-L//2, dim=dim)
+        if Nt > N:
+            y = y[:,:,:N] if d == 2 else y[:,:,:,:N]
     else:
         if mode == 'zero' or mode == 'symmetric' or mode == 'reflect' or \
                 mode == 'periodic':
@@ -567,13 +584,23 @@ def afb2d_nonsep(x, filts, mode='zero'):
         if x.shape[3] % 2 == 1:
             x = torch.cat((x, x[:,:,:,-1:]), dim=3)
             Nx += 1
+        Ny2, Nx2 = Ny//2, Nx//2
+        # A filter longer than the image wraps around it more than once.
+        # Repeat the image so that a single wrap is enough; the first
+        # (Ny2, Nx2) outputs are then the wanted ones.
+        if Ly > Ny:
+            x = torch.cat([x] * -(-Ly // Ny), dim=2)
+            Ny = x.shape[2]
+        if Lx > Nx:
+            x = torch.cat([x] * -(-Lx // Nx), dim=3)
+            Nx = x.shape[3]
         pad = (Ly-1, Lx-1)
         stride = (2, 2)
         x = roll(roll(x, -Ly//2, dim=2), -Lx//2, dim=3)
         y = F.conv2d(x, f, padding=pad, stride=stride, groups=C)
         y[:,:,:Ly//2] += y[:,:,Ny//2:Ny//2+Ly//2]
         y[:,:,:,:Lx//2] += y[:,:,:,Nx//2:Nx//2+Lx//2]
-        y = y[:,:,:Ny//2, :Nx//2]
+        y = y[:,:,:Ny2, :Nx2]
     elif mode == 'zero' or mode == 'symmetric' or mode == 'reflect':
         # Calculate the pad size
         out1 = pywt.dwt_coeff_len(Ny, Ly, mode=mode)
@@ -789,11 +816,22 @@ def sfb2d_nonsep(coeffs, filts, mode='zero'):
 
     x = coeffs.reshape(coeffs.shape[0], -1, coeffs.shape[-2], coeffs.shape[-1])
     if mode == 'periodization' or mode == 'per':
+        Ny0, Nx0 = Ny, Nx
+        # A filter longer than the image wraps around it more than once.
+        # Repeat the coefficients so that a single wrap is enough; the first
+        # (2*Ny0, 2*Nx0) outputs are then the wanted ones.
+        if Ly > 2*Ny:
+            x = torch.cat([x] * -(-Ly // (2*Ny)), dim=2)
+            Ny = x.shape[2]
+        if Lx > 2*Nx:
+            x = torch.cat([x] * -(-Lx // (2*Nx)), dim=3)
+            Nx = x.shape[3]
         ll = F.conv_transpose2d(x, f, groups=C, stride=2)
         ll[:,:,:Ly-2] += ll[:,:,2*Ny:2*Ny+Ly-2]
         ll[:,:,:,:Lx-2] += ll[:,:,:,2*Nx:2*Nx+Lx-2]
         ll = ll[:,:,:2*Ny,:2*Nx]
         ll = roll(roll(ll, 1-Ly//2, dim=2), 1-Lx//2, dim=3)
+        ll = ll[:,:,:2*Ny0,:2*Nx0]
     elif mode == 'symmetric' or mode == 'zero' or mode == 'reflect' or \
             mode == 'periodic':
         pad = (Ly-2, Lx-2)
